@@ -180,6 +180,20 @@ func c09Inputs(inboundAny bool) c09In {
 	return x
 }
 
+// c09RateRegion forks the path on the clamp region of the inbound rate, so
+// that on each path the clamped rate is a plain term both in lnd's CalcFee and
+// in the reference (the solver then compares like with like).
+func c09RateRegion(rate int32) {
+	r := int64(rate)
+	if r > 10_000_000 {
+		vReach("rate-clamped-high")
+	} else if r < -10_000_000 {
+		vReach("rate-clamped-low")
+	} else {
+		vReach("rate-in-range")
+	}
+}
+
 func c09Link(x c09In) *channelLink {
 	upd := &lnwire.ChannelUpdate1{}
 	l := &channelLink{
@@ -266,6 +280,7 @@ func VerifC09Forward() {
 	x := c09Inputs(false)
 	x.bw = c09K
 	c09BW = c09K
+	c09RateRegion(x.inb.Rate)
 	l := c09Link(x)
 	var hash [32]byte
 	err := l.CheckHtlcForward(hash, x.in, x.out, x.inTL, x.outTL, x.inb, x.height, lnwire.ShortChannelID{}, nil)
@@ -305,7 +320,12 @@ func VerifC09Transit() {
 	var hash [32]byte
 	err := l.CheckHtlcTransit(hash, x.out, x.outTL, x.height, nil)
 	cls := c09Class(err)
-	r := c09Ref(x)
+	var r c09Rules
+	r.minOK = x.out >= x.pol.MinHTLCOut
+	r.maxOK = x.pol.MaxHTLC == 0 || x.out <= x.pol.MaxHTLC
+	r.soonOK = uint64(x.outTL) > uint64(x.height)+uint64(x.rejectDelta)
+	r.farOK = uint64(x.outTL) <= uint64(x.height)+uint64(x.maxCltv)
+	r.bwOK = x.out <= x.bw
 	all := r.minOK && r.maxOK && r.soonOK && r.farOK && r.bwOK
 	vAssert((cls == c09Accept) == all, "transit: accept iff amount, expiry and bandwidth rules hold")
 	switch cls {
@@ -350,6 +370,7 @@ func VerifC09CalcFeeExact() {
 	amt := vU64("amt")
 	vAssume(amt < 1<<41)
 	f := models.InboundFee{Base: vI32("inboundBase"), Rate: vI32("inboundRate")}
+	c09RateRegion(f.Rate)
 	got := f.CalcFee(lnwire.MilliSatoshi(amt))
 	want := c09CalcFeeRef(f, amt)
 	vObserve("got", got)
